@@ -155,12 +155,12 @@ pub fn api_case(i: u64, seed: u64) -> Scenario {
 pub fn run_prop(ctx: &Ctx) -> PropReport {
     let mut rep = PropReport::new("C07", "fault_enumeration");
     let seed = ctx.seed;
-    let (stride, offsets): (u64, Vec<u32>) = ctx.tier.pick((5, vec![0, 2]), (1, vec![0, 1, 2, 4]));
+    let (stride, offsets): (u64, Vec<u32>) = ctx.tier.pick((2, vec![0, 2]), (1, vec![0, 1, 2, 4]));
     let per = (120 / stride) * offsets.len() as u64;
     let n = NBASE * per;
     let offs = offsets.clone();
     rep.part(|| run_enum(ctx, "death",
-        "fault enumeration: 288 base configs (window {0,1,2,8} x delay {0,2} x players per side {1+1,2+1,1+2} x sparse x spectator on the survivor x latency {0,20,60 ms}, timeouts from {100/300, 300/1000, 500/2000, 800/3000 ms}) x moment of death = every 5th (quick) / every (thorough) tick of a 120-tick window x the dying peer's last 0/2 (quick) 0/1/2/4 (thorough) ticks of packets lost; oracle: exact NetworkInterrupted / Disconnected instants predicted from the survivor's poll instants and packet deliveries (first poll after last-receive + notify resp. + timeout, once each, disconnect_timeout field = timeout - notify), survivor and its spectator keep advancing, final timeline = real inputs up to the last received frame then default/Disconnected, spectator identical; non-trivial = the drop was detected and a frame beyond the cut-off had been simulated with a prediction before (or lockstep)",
+        "fault enumeration: 288 base configs (window {0,1,2,8} x delay {0,2} x players per side {1+1,2+1,1+2} x sparse x spectator on the survivor x latency {0,20,60 ms}, timeouts from {100/300, 300/1000, 500/2000, 800/3000 ms}) x moment of death = every 2nd (quick) / every (thorough) tick of a 120-tick window x the dying peer's last 0/2 (quick) 0/1/2/4 (thorough) ticks of packets lost; oracle: exact NetworkInterrupted / Disconnected instants predicted from the survivor's poll instants and packet deliveries (first poll after last-receive + notify resp. + timeout, once each, disconnect_timeout field = timeout - notify), survivor and its spectator keep advancing, final timeline = real inputs up to the last received frame then default/Disconnected, spectator identical; non-trivial = the drop was detected and a frame beyond the cut-off had been simulated with a prediction before (or lockstep)",
         n, move |i| death_case(i, seed, stride, &offs), eval, ctx.tier == Tier::Thorough));
     let m = ctx.tier.pick(NBASE * 2, NBASE * 10);
     rep.part(|| run_enum(ctx, "disconnect_player",
